@@ -523,6 +523,10 @@ struct timespec* sentTime) {
     if (m_repeat) {
       return setState(bs_skip, RESULT_ERR_CRC);
     }
+    m_currentAnswering = getAnswer();
+    if (m_currentAnswering) {
+      return setState(bs_sendCmdAck, RESULT_ERR_CRC, true);  // send NAK and wait for the repeated command
+    }
     return setState(bs_recvCmdAck, RESULT_ERR_CRC);
 
   case bs_recvCmdAck:
